@@ -57,7 +57,7 @@ func main() {
 		},
 		Run: run,
 		MustObserve: []string{"tasks_started", "tasks_ended", "milestones_inside_an_open_task", "tags_inside_an_open_task", "tasks_ended_by_reset_teardown",
-			"resets_acknowledged_with_requests_in_flight", "quiescent_points_judged", "runs_with_traffic_after_a_reset"},
+			"resets_acknowledged_with_requests_in_flight", "quiescent_points_judged", "runs_with_traffic_after_a_reset", "cases_with_slow_requesters_throughout"},
 	})
 }
 
@@ -166,15 +166,20 @@ func oneCase(c *kit.Case, p params) {
 		cfg = xc.stackCfg()
 	} else {
 		opts := sim.GenOpts{NumReqs: p.NumReqs, AllowDRAM: rng.Intn(3) == 0, AllowBanked: true, MaxDrivers: 3, RspStall: true}
-		backPressured := c.Index%8 == 5 // every eighth case: slow requesters throughout, so resets meet units whose Top port is full
+		backPressured := rng.Intn(4) == 0 // a quarter of the hierarchies: slow requesters throughout, so resets meet units whose Top port is full
 		if backPressured {
 			opts.MemKind = []string{"banked", "banked", "ideal", "dram"}[rng.Intn(4)]
+			opts.NoLevels = rng.Intn(2) == 0 // the slow requesters sit directly on the memory
 		}
 		cfg = sim.RandomStackCfg(rng, opts)
 		if backPressured {
 			for i := range cfg.Drivers {
 				cfg.Drivers[i].RspStallPct = 60 + 10*rng.Intn(4)
+				if cfg.Drivers[i].MaxInflight < 16 {
+					cfg.Drivers[i].MaxInflight = 16 // enough outstanding requests to fill the small port buffers
+				}
 			}
+			cfg.PortBuf = 1 + rng.Intn(2)
 			r.Count("cases_with_slow_requesters_throughout", 1)
 		}
 		cfg.WithCtrl = true
